@@ -394,6 +394,34 @@ example : Date.parse [49, 52, 52, 52, 46, 49, 51, 46, 49] = .err ∧            
     DateHour.parse [49, 46, 49, 46, 49, 46, 48] = .err ∧                        -- 1.1.1.0
     UniformDate.parse [49, 46, 49, 46, 51, 49] = .err := by decide              -- 1.1.31
 
+/-- **`RawDate::parse`** accepts only `Y.M.D[.H]` texts (never the bare binary number), month
+1–12, day 1–31, hour absent or 1–24, with exactly the components of the text. -/
+theorem C13_rejects_raw (s : Bytes) (x : RawDate) (hx : RawDate.parse s = .ok x) :
+    ∃ e, Expanded.parse s = .ok e ∧ ValidRaw e.month e.day e.hour ∧ x = mkRaw e.year e.month e.day e.hour ∧
+      ∃ v rest, Scalar.toI64T s = .ok (v, rest) ∧ rest ≠ [] := by
+  unfold RawDate.parse at hx
+  cases he : Expanded.parse s with
+  | ok e =>
+    rw [he] at hx
+    simp only [Out.bind_ok, RawDate.fromExpanded, RawDate.fromYmdhOpt_eq] at hx
+    split at hx
+    · rename_i hv
+      simp only [Out.bind_ok] at hx
+      split at hx
+      · cases hx
+      · rename_i v rest ht
+        split at hx
+        · cases hx
+        · rename_i hne
+          cases hx
+          exact ⟨e, rfl, hv, rfl, v, rest, ht, by simpa using hne⟩
+    · cases hx
+  | err => rw [he] at hx; cases hx
+  | panic => rw [he] at hx; cases hx
+
+example : RawDate.parse [52, 51, 56, 48, 56, 55, 54, 48] = .err ∧               -- "43808760"
+    Date.parse [52, 51, 56, 48, 56, 55, 54, 48] = .ok (mkDate 1 1 1) := by decide
+
 /-- **no text parser panics**, for any byte string. -/
 theorem C13_no_panic_parse (s : Bytes) :
     Date.parse s ≠ .panic ∧ DateHour.parse s ≠ .panic ∧ UniformDate.parse s ≠ .panic ∧
